@@ -304,7 +304,8 @@ class SynchronousMemory(Logic):
         s = f'(* ramstyle = "no_rw_check" *) reg [{w-1}:0] mem [0:{numcells-1}];\n'
 
         s += f'reg [{w-1}:0] rreaddata;\n'
-        s += 'always @(posedge clk) begin\n'
+        clkname = getObjectClockDriver(self).name  # the name createModuleHeader gives the clock port
+        s += f'always @(posedge {clkname}) begin\n'
         s += 'if (write) \n'
         s += ' mem[write_address] <= writedata;\n'
         s += ' rreaddata <= mem[read_address];\n'
@@ -374,13 +375,14 @@ class DualPortSynchronousMemory(Logic):
         s += f'reg [{w-1}:0] rreaddata_a;\n'
         s += f'reg [{w-1}:0] rreaddata_b;\n'
 
-        s += 'always @(posedge clk) begin\n'
+        clkname = getObjectClockDriver(self).name  # the name createModuleHeader gives the clock port
+        s += f'always @(posedge {clkname}) begin\n'
         s += 'if (write_a) \n'
         s += ' mem[write_address_a] <= writedata_a;\n'
         s += ' rreaddata_a <= mem[read_address_a];\n'
         s += 'end\n'
 
-        s += 'always @(posedge clk) begin\n'
+        s += f'always @(posedge {clkname}) begin\n'
         s += 'if (write_b) \n'
         s += ' mem[write_address_b] <= writedata_b;\n'
         s += ' rreaddata_b <= mem[read_address_b];\n'
